@@ -118,6 +118,8 @@ Definition eff_of (o : fop) (s : state) (ans : vans) : effect :=
        e_ubd := Some {| u_del := a; u_val := v;
                         u_entries := fst (add_entry (height s) (a_time ans) (a_amt ans) (a_id ans) olde) |};
        e_da := a_reward ans; e_dp := if a_bonded ans then a_amt ans else 0; e_q := Some (a_time ans) |}
+  | FRedelegate a v _ _ =>   (* two updates: treated in P_MigrateFollowR.v *)
+    {| e_del := del_of s a v; e_start := start_of s a v; e_ubd := ubd_of s a v; e_da := 0; e_dp := 0; e_q := None |}
   end.
 
 Definition fquery (o : fop) (s : state) : query :=
@@ -125,9 +127,11 @@ Definition fquery (o : fop) (s : state) : query :=
   | FDelegate a v amt => mkq 1 s a v amt
   | FUndelegate a v sh => mkq 2 s a v sh
   | FWithdraw a v => mkq 3 s a v 0
+  | FRedelegate a v _ sh => mkq 4 s a v sh
   end.
 
-Definition fval (o : fop) : Z := match o with FDelegate _ v _ => v | FUndelegate _ v _ => v | FWithdraw _ v => v end.
+Definition fval (o : fop) : Z := match o with FDelegate _ v _ => v | FUndelegate _ v _ => v | FWithdraw _ v => v | FRedelegate _ v _ _ => v end.
+Definition is_red (o : fop) : bool := match o with FRedelegate _ _ _ _ => true | _ => false end.
 
 Lemma qget_sset : forall {P} t t' (l : list P) q, qget t' (sset Z.eqb t l q) = if t' =? t then l else qget t' q.
 Proof.
@@ -530,6 +534,7 @@ Section Simulation.
     | FDelegate a v amt => FDelegate (ren_addr from to a) v amt
     | FUndelegate a v sh => FUndelegate (ren_addr from to a) v sh
     | FWithdraw a v => FWithdraw (ren_addr from to a) v
+    | FRedelegate a v w sh => FRedelegate (ren_addr from to a) v w sh
     end.
 
   Lemma sel_ren {A} : forall a (x y z : A), a <> to ->
@@ -600,12 +605,12 @@ Section Simulation.
 
   Theorem sim_step : forall e s s' o e1 t,
     pool_nb (cfg s) <> from -> pool_nb (cfg s) <> to ->
-    sim from to s s' -> factor o <> to ->
+    sim from to s s' -> factor o <> to -> is_red o = false ->
     fstep env ask env_next e s o = Ok (e1, t) ->
     exists t', fstep env ask env_next e s' (ren_fop o) = Ok (e1, t') /\ sim from to t t'.
   Proof.
-    intros e s s' o e1 t Npf Npt S Na H. pose proof (sm_wf _ _ _ _ S) as W. pose proof (sm_wf' _ _ _ _ S) as W'.
-    destruct o as [a v amt | a v sh | a v]; cbn [factor fstep ren_fop] in *.
+    intros e s s' o e1 t Npf Npt S Na NR H. pose proof (sm_wf _ _ _ _ S) as W. pose proof (sm_wf' _ _ _ _ S) as W'.
+    destruct o as [a v amt | a v sh | a v | a v w sh]; [| | |discriminate]; cbn [factor fstep ren_fop] in *.
     - (* delegate *)
       pose proof (delegate_shape env ask env_next _ _ _ _ _ _ _ H) as Sh.
       destruct (delegate_applied env ask env_next _ _ _ _ _ _ _ H) as [E1 Ap].
@@ -663,51 +668,6 @@ Section Simulation.
          | apply (fshape_qc _ _ _ _ Sh W (sm_qc _ _ _ _ S)) | apply (fshape_qc _ _ _ _ Sh' W' (sm_qc' _ _ _ _ S))].
   Qed.
 End Simulation.
-
-(* ---------- sequences of follow-ups (each accepted in the world without migration) ---------- *)
-Section Sequences.
-  Variable env : Type.
-  Variable ask : env -> query -> vans.
-  Variable env_next : env -> query -> env.
-  Variables from to : Z.
-  Hypothesis Hft : from <> to.
-
-  Fixpoint fruns (e : env) (s : state) (ops : list fop) : outcome (env * state) :=
-    match ops with
-    | [] => Ok (e, s)
-    | o :: r => match fstep env ask env_next e s o with
-                | Ok (e1, t) => fruns e1 t r
-                | Err x => Err x
-                | Panic => Panic
-                end
-    end.
-
-  Lemma fstep_cfg : forall e s o e1 t, wfP s -> fstep env ask env_next e s o = Ok (e1, t) -> cfg t = cfg s.
-  Proof.
-    intros e s o e1 t W H. destruct o as [a v amt | a v sh | a v]; cbn [fstep] in H.
-    - destruct (delegate_applied env ask env_next _ _ _ _ _ _ _ H) as [_ (_ & _ & _ & _ & _ & C & _)]. exact C.
-    - destruct (undelegate_applied env ask env_next _ _ _ _ _ _ _ W H) as [_ (_ & _ & _ & _ & _ & C & _)]. exact C.
-    - destruct (withdraw_applied env ask env_next _ _ _ _ _ _ H) as [_ (_ & _ & _ & _ & _ & C & _)]. exact C.
-  Qed.
-
-  (* whatever the source could have done without migrating, the target can do after the migration, step by
-     step with the same validator-side answers, and the two worlds stay related *)
-  Theorem sim_run : forall ops e s s' e1 t,
-    pool_nb (cfg s) <> from -> pool_nb (cfg s) <> to ->
-    sim from to s s' -> (forall o, In o ops -> factor o <> to) ->
-    fruns e s ops = Ok (e1, t) ->
-    exists t', fruns e s' (map (ren_fop from to) ops) = Ok (e1, t') /\ sim from to t t'.
-  Proof.
-    induction ops as [|o ops IH]; intros e s s' e1 t Npf Npt S Ha H.
-    - cbn in H. inversion H. subst. exists s'. split; [reflexivity | exact S].
-    - cbn [fruns] in H. destruct (fstep env ask env_next e s o) as [[e2 t2]| |] eqn:E; try discriminate.
-      destruct (sim_step env ask env_next from to Hft e s s' o e2 t2 Npf Npt S (Ha o (or_introl eq_refl)) E) as [t2' [E' S2]].
-      pose proof (fstep_cfg _ _ _ _ _ (sm_wf _ _ _ _ S) E) as C.
-      destruct (IH e2 t2 t2' e1 t) as [t' [R S']]; try assumption; try (rewrite C; assumption).
-      { intros o' I. apply Ha. right. exact I. }
-      exists t'. split; [|exact S']. cbn [map fruns]. rewrite E'. exact R.
-  Qed.
-End Sequences.
 
 (* ---------- the migration establishes the relation ---------- *)
 Lemma qrel_map_ren : forall from to l, qrel from to l (map (ren_pair from to) l).
@@ -837,42 +797,3 @@ Proof.
     rewrite Pa. reflexivity.
 Qed.
 
-(* ---------- assembled ---------- *)
-Theorem followups_commute : forall (sigT : Type) (recover : Z -> Z -> sigT -> option Z)
-    (env : Type) (ask : env -> query -> vans) (env_next : env -> query -> env)
-    s from to sg s' e ops e1 t,
-  wf s -> qcoverb s = true -> balposb s = true ->
-  pool_nb (cfg s) <> from -> pool_nb (cfg s) <> to ->
-  migrate_tx sigT recover s from to sg = Ok s' ->
-  (forall o, In o ops -> factor o <> to) ->
-  fruns env ask env_next e s ops = Ok (e1, t) ->
-  exists t', fruns env ask env_next e s' (map (ren_fop from to) ops) = Ok (e1, t') /\ sim from to t t'.
-Proof.
-  intros sigT recover env ask env_next s from to sg s' e ops e1 t W Q B Npf Npt H Ha R.
-  pose proof (sim_after_migration sigT recover s from to sg s' W Q B H) as S.
-  apply migrate_tx_inv in H. destruct H as (N & _).
-  apply (sim_run env ask env_next from to N ops e s s' e1 t Npf Npt S Ha R).
-Qed.
-
-(* a concrete run: validator-side answers fixed, the source's would-be actions replayed by the target *)
-Definition ex_ask (_ : unit) (q : query) : vans :=
-  {| a_reward := 7; a_start := {| st_period := 9; st_stake := 1; st_height := q_height q |};
-     a_amt := q_arg q; a_bonded := true; a_time := q_now q + 1000; a_id := 50 + q_kind q; a_max := 7 |}.
-Definition ex_next (e : unit) (_ : query) : unit := e.
-Definition ex_ops : list fop := [FUndelegate 1 13 200; FWithdraw 1 13; FDelegate 1 13 50; FUndelegate 9 13 900].
-
-Theorem followups_example :
-  let s := ex_init in let s' := ex_after in
-  exists t t', fruns unit ex_ask ex_next tt s ex_ops = Ok (tt, t) /\
-               fruns unit ex_ask ex_next tt s' (map (ren_fop 1 5) ex_ops) = Ok (tt, t') /\
-  del_of t 1 13 = Some {| d_del := 1; d_val := 13; d_shares := 550 |} /\
-  del_of t' 5 13 = Some {| d_del := 5; d_val := 13; d_shares := 550 |} /\ del_of t' 1 13 = None /\
-  option_map (fun u => length (u_entries u)) (ubd_of t 1 13) = Some 3%nat /\
-  option_map (fun u => length (u_entries u)) (ubd_of t' 5 13) = Some 3%nat /\
-  del_of t 9 13 = None /\ del_of t' 9 13 = None /\
-  bal_of t 1 0 = 5000 + 7 + 7 + 7 - 50 /\ bal_of t' 5 0 = 5003 + 7 + 7 + 7 - 50 /\ bal_of t' 1 0 = 0 /\
-  ubd_slice t 1010 = [(1, 13); (9, 13)] /\ ubd_slice t' 1010 = [(5, 13); (9, 13)].
-Proof.
-  cbv zeta. eexists. eexists. split; [vm_compute; reflexivity|]. split; [vm_compute; reflexivity|].
-  repeat split; vm_compute; reflexivity.
-Qed.
